@@ -44,7 +44,7 @@ def add_past_terms(draw, spec, mult_rate=8):
         x = states[draw(st.integers(0, len(states) - 1))]
         e = des[draw(st.integers(0, len(des) - 1))]
         tau = draw(st.sampled_from(DELAYS))
-        form = draw(st.integers(0, 2))
+        form = draw(st.integers(0, 3))
         if form == 2:
             # delay as a parameter
             pname = next(n for n in ("tau_d", "tau_d0", "tau_d1", "tau_d2") if n not in {v[0] for v in od["vars"]})
@@ -52,6 +52,8 @@ def add_past_terms(draw, spec, mult_rate=8):
             term = ["past", x, ["var", pname]]
         elif form == 1:
             term = ["past", x, tau, "tform"]
+        elif form == 3:
+            term = ["past", x, tau, "tform_sci"]
         else:
             term = ["past", x, tau]
         c = draw(st.sampled_from([0.5, 1.0, 2.0, 0.3]))
@@ -129,14 +131,16 @@ class FuncArm(Arm):
                 # past() term at all
                 spec, pairs = (add_past_terms(draw, base) if draw(st.booleans()) else (base, []))
                 rmb = RefModel(skeleton(spec))
-                k = 0
-                for e in spec["edges"]:
-                    pre = (e.get("scope") + "/") if e.get("scope") else ""
-                    if rmb.kind.get(pre + e["s"]) == "state" and (k == 0 or draw(st.booleans())):
+                cand = [e for e in spec["edges"]
+                        if rmb.kind.get(((e.get("scope") + "/") if e.get("scope") else "") + e["s"]) == "state"]
+                # any subset of the edges that leave state variables is delayed (at least one), so that undelayed edges
+                # come before and after delayed ones of the same source variable
+                forced = draw(st.integers(0, max(0, len(cand) - 1)))
+                for k, e in enumerate(cand):
+                    if k == forced or draw(st.booleans()):
                         # edge delays not larger than the (initial) step size are deliberately neglected by the
                         # implementation: stay clearly above it
                         e["d"] = draw(st.sampled_from([x for x in DELAYS if x > 2.01 * dt_]))
-                        k += 1
             else:
                 spec, pairs = add_past_terms(draw, base)
             rm = RefModel(skeleton(spec))
